@@ -226,6 +226,14 @@ impl Lexer<'_> {
     /// Rollback the lexer to the last checkpoint, clearing it in the process.
     fn rollback(&mut self) {
         if let Some(checkpoint) = self.checkpoint.take() {
+            self.cursor = checkpoint.cursor;
+            self.cur_token_byte_offset = checkpoint.cur_token_byte_offset;
+            self.cur_token_start = checkpoint.cur_token_start;
+            self.cur_token_line = checkpoint.cur_token_line;
+            self.mode_stack.truncate(checkpoint.mode_stack_len);
+            self.buffer.rollback(checkpoint.buffer_checkpoint);
+            // Observed after the state is restored: errors that are still listed now
+            // have survived the rollback
             #[cfg(sas_lexer_verif)]
             {
                 self.verif.rollbacks += 1;
@@ -233,12 +241,6 @@ impl Lexer<'_> {
                     self.verif.rollbacks_with_new_errors += 1;
                 }
             }
-            self.cursor = checkpoint.cursor;
-            self.cur_token_byte_offset = checkpoint.cur_token_byte_offset;
-            self.cur_token_start = checkpoint.cur_token_start;
-            self.cur_token_line = checkpoint.cur_token_line;
-            self.mode_stack.truncate(checkpoint.mode_stack_len);
-            self.buffer.rollback(checkpoint.buffer_checkpoint);
         } else {
             #[cfg(debug_assertions)]
             {
